@@ -191,6 +191,14 @@ class P(vlib.Prop):
             for typ in sorted(ctors):
                 reg += "\tfunc() any { return %s() },\n" % ctors[typ]
             reg += "}\n"
+            top = {"plog": ("Logs", "MarshalLogs"), "pmetric": ("Metrics", "MarshalMetrics"), "ptrace": ("Traces", "MarshalTraces"),
+                   "pprofile": ("Profiles", "MarshalProfiles")}.get(gopkg)
+            reg += "\n// canonical protobuf encoding of the top-level payload of this package (the property's observable)\n"
+            if top:
+                reg += ("func vMarshalTop(x any) ([]byte, bool) {\n\tif v, ok := x.(%s); ok {\n\t\tb, err := (&ProtoMarshaler{}).%s(v)\n"
+                        "\t\tif err != nil {\n\t\t\tpanic(err)\n\t\t}\n\t\treturn b, true\n\t}\n\treturn nil, false\n}\n" % top)
+            else:
+                reg += "func vMarshalTop(x any) ([]byte, bool) { return nil, false }\n"
             for name, text in (("sweepreg", reg), ("sweep", tmpl.replace("@PKG@", gopkg))):
                 path = os.path.join(ctx.work, "%s_%s_test.go" % (name, gopkg))
                 if not os.path.exists(path) or open(path).read() != text:
